@@ -240,7 +240,7 @@ class Interp:
     # ---- expressions ---------------------------------------------------------------
     def ex(self, n, fr):
         t = self._ex(n, fr)
-        return simp(t)
+        return simp_top(t)
 
     def _ex(self, n, fr):
         if isinstance(n, ast.Constant):
@@ -258,7 +258,10 @@ class Interp:
                 return ('slice', b, self.ex(sl.lower, fr) if sl.lower else NONE, self.ex(sl.upper, fr) if sl.upper else NONE)
             return self.load(I(b, self.ex(n.slice, fr)))
         if isinstance(n, ast.BinOp):
-            return BIN(type(n.op).__name__, self.ex(n.left, fr), self.ex(n.right, fr))
+            l, r = self.ex(n.left, fr), self.ex(n.right, fr)
+            if isinstance(n.op, (ast.Div, ast.FloorDiv, ast.Mod)) and self.sink is not None and not is_num(r):
+                self.emit(Eff('div', fr.func, n, num=l, den=r, op=type(n.op).__name__))     # evaluation point of a division
+            return BIN(type(n.op).__name__, l, r)
         if isinstance(n, ast.UnaryOp):
             if isinstance(n.op, ast.Not):
                 return NOT(as_cond(self.ex(n.operand, fr)))
@@ -463,6 +466,8 @@ class Interp:
                 target = self.resolve_method(fv[1], fv[2], len(args) + len(kw), fr)
                 if target is not None:
                     return self.inline(target, fv[1], args, kw, fr, n)
+        if isinstance(f, ast.Name) and f.id == 'getattr' and f.id not in fr.env and len(args) in (2, 3) and args[1][0] == 'const' and isinstance(args[1][1], str):
+            return self.load(A(args[0], args[1][1]))
         if isinstance(f, ast.Name):
             name = f.id
             if name not in fr.env:
@@ -770,6 +775,12 @@ class Interp:
                 and fr.env[tgt.value.id][0] not in ('sym', 'attr', 'bvar', 'idx') and not isinstance(tgt.slice, ast.Slice):
             self.accumulate(tgt.value.id, 'setidx', self.ex(tgt.slice, fr), v, fr, s)
             return
+        if isinstance(tgt, ast.Subscript) and isinstance(tgt.value, ast.Name) and tgt.value.id in fr.env \
+                and fr.env[tgt.value.id][0] not in ('sym', 'attr', 'bvar', 'idx') and isinstance(tgt.slice, ast.Slice) and tgt.slice.step is None:
+            lo = self.ex(tgt.slice.lower, fr) if tgt.slice.lower else C(0)
+            hi = self.ex(tgt.slice.upper, fr) if tgt.slice.upper else NONE
+            self.accumulate(tgt.value.id, 'setslice', ('tuple', (lo, hi)), v, fr, s)
+            return
         tt = self.target_term(tgt, fr)
         if v[0] == 'lpproblem':
             self.lp_problems.add(tt)
@@ -817,7 +828,7 @@ class Interp:
             fr.env[name] = cat(cur, ('list', (val,)))
         elif op == 'extend':
             fr.env[name] = cat(cur, val)
-        elif op in ('setidx', 'addidx', 'appendidx', 'extendidx'):
+        elif op in ('setidx', 'addidx', 'appendidx', 'extendidx', 'setslice'):
             fr.env[name] = ('upd', cur, op, index, val)
         else:
             fr.env[name] = simp(BIN(op, cur, val))
